@@ -1,6 +1,9 @@
 import Liquid.Std
 import Proofs.PostLemmas
 import Proofs.RunLemmas
+import Proofs.ScopeLemmas
+import Proofs.LoopLemmas
+import Proofs.C10
 /-!
 # C12 — assign/capture bind for the rest of the render; loop variables are restored
 -/
@@ -366,3 +369,310 @@ example :
     simp [renderRoot, renderList, renderNode, wrapFailAt, M.mapFail, M.bind, M.pure, writeM, trimLeftM,
       flushM, Prog.bind, Prog.mapFail, Prog.runPure, bind, pure, demoCtx]
     rfl)
+
+/-! ## One flat variable map: nothing is popped when a block ends
+
+`EnvQ Q` is a condition on the variables a fragment returns with (`Q kind env`, `kind` = ended
+normally / by `break` / by `continue`). The rules below say, for every kind of block, that a
+condition on the variables established at the end of the block's bodies holds after the block:
+there is no scope to leave. They hold in every state and for every writer behaviour (`AllRet`),
+and they compose, so they cover every nesting. -/
+
+/-- **C12 (frame).** A fragment can change only the variables it writes (`writesNode`: targets of
+    `assign`/`capture`, `forloop` under `cycle`; a loop's own variable and `forloop` are restored
+    and do not count; `include` works on a copy): every other variable has its old value whenever
+    the fragment returns — for every nesting, state and writer behaviour. -/
+theorem only_written_change (c : RCtx) (y : Bytes) (body : List Node) (h : y ∉ writesList body) (s : RS) :
+    AllRet (fun r : Status × RS => r.2.env.get y = s.env.get y) (renderBlockBody c body s) :=
+  keeps_renderBlockBody c y body h s
+
+theorem only_written_change_node (c : RCtx) (y : Bytes) (n : Node) (h : y ∉ writesNode n) (s : RS) :
+    AllRet (fun r : Status × RS => r.2.env.get y = s.env.get y) (renderNode c n s) :=
+  keeps_renderNode c y n h s
+
+/-- **C12 (block end).** Closing a block changes no variable: what holds of the variables at the
+    end of a block's node sequence holds after the block (`RenderBlock` only adds a flush). -/
+theorem block_end_scope (c : RCtx) (body : List Node) (s : RS) (Q : SK → Env → Prop)
+    (h : AllRet (EnvQ Q) (renderList c body s)) : AllRet (EnvQ Q) (renderBlockBody c body s) := by
+  unfold renderBlockBody
+  refine AllRet.bind h (fun ⟨st, s1⟩ h1 => ?_)
+  cases st with
+  | done =>
+    refine AllRet.bind (sameEnv_wrapFailAt _ _ sameEnv_flush s1) (fun ⟨_, s2⟩ h2 => .ret _ ?_)
+    simp only [EnvQ] at h1 h2 ⊢
+    rw [h2]; exact h1
+  | brk e => exact .ret _ h1
+  | cont e => exact .ret _ h1
+
+/-- sequencing: what follows a node runs in exactly the state the node ends with -/
+theorem seq_scope (c : RCtx) (n : Node) (ns : List Node) (s : RS) (Q : SK → Env → Prop)
+    (h : AllRet (fun r : Status × RS => match r.1 with
+        | .done => AllRet (EnvQ Q) (renderList c ns r.2)
+        | _ => EnvQ Q r) (renderNode c n s)) :
+    AllRet (EnvQ Q) (renderList c (n :: ns) s) := by
+  rw [renderList]
+  refine AllRet.bind h (fun ⟨st, s1⟩ h1 => ?_)
+  cases st with
+  | done => exact h1
+  | brk e => exact .ret _ h1
+  | cont e => exact .ret _ h1
+
+theorem seq_scope_append (c : RCtx) (pre post : List Node) (s : RS) (Q : SK → Env → Prop)
+    (h : AllRet (fun r : Status × RS => match r.1 with
+        | .done => AllRet (EnvQ Q) (renderList c post r.2)
+        | _ => EnvQ Q r) (renderList c pre s)) :
+    AllRet (EnvQ Q) (renderList c (pre ++ post) s) := by
+  induction pre generalizing s with
+  | nil =>
+    rw [renderList] at h
+    cases h with | ret _ h => exact h
+  | cons n pre ih =>
+    rw [List.cons_append]
+    refine seq_scope c n (pre ++ post) s Q ?_
+    rw [renderList] at h
+    simp only [bind, M.bind] at h
+    -- read the post-condition of the head node off the sequence's
+    generalize renderNode c n s = p at h
+    induction p with
+    | ret r =>
+      obtain ⟨st, s1⟩ := r
+      cases st with
+      | done => exact .ret _ (ih s1 h)
+      | brk e => cases h with | ret _ h => exact .ret _ h
+      | cont e => cases h with | ret _ h => exact .ret _ h
+    | fail e => exact .fail _
+    | panic w => exact .panic _
+    | unmodelled w => exact .unmodelled _
+    | call b k ihk =>
+      cases h with | call _ _ hk => exact .call _ _ (fun r => ihk r (hk r))
+
+/-- **C12 (if).** What holds of the variables at the end of the branch bodies (each from the
+    state of the `if`, under its own test) — and of the untouched variables when no branch fires —
+    holds after the `if` block. -/
+theorem if_scope (c : RCtx) (line : Nat) (bs : List (CondT × List Node)) (s : RS) (Q : SK → Env → Prop)
+    (hnone : (∀ b ∈ bs, condRes c.P s.env b.1 = .ok false) → Q .done s.env)
+    (hb : ∀ b ∈ bs, condRes c.P s.env b.1 = .ok true → AllRet (EnvQ Q) (renderBlockBody c b.2 s)) :
+    AllRet (EnvQ Q) (renderNode c (.ifB line bs) s) := by
+  rw [renderNode]
+  refine AllRet.wrapAt ?_
+  induction bs with
+  | nil => rw [renderBranches]; exact .ret _ (hnone (by simp))
+  | cons b bs ih =>
+    obtain ⟨t, body⟩ := b
+    rw [renderBranches_cons]
+    cases h : condRes c.P s.env t with
+    | ok v =>
+      cases v with
+      | true => exact hb (t, body) (by simp) h
+      | false =>
+        refine ih (fun hall => hnone ?_) (fun b hm => hb b (by simp [hm]))
+        intro b hm
+        rcases List.mem_cons.mp hm with rfl | hm
+        · exact h
+        · exact hall b hm
+    | err e => exact .fail _
+    | panic w => exact .panic _
+    | unmodelled w => exact .unmodelled _
+
+/-- **C12 (case).** The same for `case`: the variables after the block are those at the end of the
+    clause that ran, or the untouched ones. -/
+theorem case_scope (c : RCtx) (line : Nat) (subject : Expr) (cs : List (Option (Nat × List Expr) × List Node))
+    (s : RS) (Q : SK → Env → Prop)
+    (hnone : Q .done s.env)
+    (hb : ∀ cl ∈ cs, AllRet (EnvQ Q) (renderBlockBody c cl.2 s)) :
+    AllRet (EnvQ Q) (renderNode c (.caseB line subject cs) s) := by
+  rw [renderNode]
+  refine AllRet.wrapAt ?_
+  simp only [bind, M.bind, M.getEnv, Prog.bind]
+  cases evaluate c.P s.env subject with
+  | ok sel =>
+    simp only [M.ofRes, pure, M.pure, Prog.bind]
+    induction cs with
+    | nil => rw [renderCases]; exact .ret _ hnone
+    | cons cl cs ih =>
+      obtain ⟨w, body⟩ := cl
+      cases w with
+      | none => rw [renderCases]; exact hb (none, body) (by simp)
+      | some le =>
+        obtain ⟨l, es⟩ := le
+        rw [renderCases_when]
+        cases whenRes c.P s.env sel es with
+        | ok v =>
+          cases v with
+          | true => exact hb (some (l, es), body) (by simp)
+          | false => exact ih (fun cl hm => hb cl (by simp [hm]))
+        | err e => exact .fail _
+        | panic w => exact .panic _
+        | unmodelled w => exact .unmodelled _
+  | err e => exact .fail _
+  | panic w => exact .panic _
+  | unmodelled w => exact .unmodelled _
+
+theorem no_else_clause_scope (P : Prims) (loc : Loc) (tr : Bool) (var : Bytes) (colsE : Option Expr)
+    (bodyM : M Status) (items : List GoVal) :
+    loopDispatch P loc tr var colsE bodyM none items = loopIterate P loc tr var colsE bodyM items := by
+  unfold loopDispatch; cases items <;> rfl
+
+/-- **C12 (for / tablerow).** A condition `I` on the variables that does not look at the loop
+    variable or `forloop`, holds before the loop and is preserved by the body (from every state),
+    holds after the loop — which always ends `done`; an `else` clause passes on what it
+    establishes. Nothing but the loop variable and `forloop` is restored. -/
+theorem loop_scope (c : RCtx) (line : Nat) (tr : Bool) (var : Bytes) (e : Expr) (mods : LoopMods) (body : List Node)
+    (clauses : List (List Node)) (s : RS) (I : Env → Prop) (Q : SK → Env → Prop)
+    (hI : ∀ env y w, (y = var ∨ y = nmForloop) → (I (env.set y w) ↔ I env))
+    (h0 : I s.env)
+    (hbody : ∀ s1, I s1.env → AllRet (fun r : Status × RS => I r.2.env) (renderBlockBody c body s1))
+    (hQ : ∀ env, I env → Q .done env)
+    (hels : ∀ els ∈ clauses, AllRet (EnvQ Q) (renderBlockBody c els s))
+    (hcl : clauses.length ≤ 1) :
+    AllRet (EnvQ Q) (renderNode c (.loop line tr var e mods body clauses) s) := by
+  have hiter : ∀ items, AllRet (EnvQ Q)
+      (loopIterate c.P ⟨line, true⟩ tr var mods.cols (renderBlockBody c body) items s) := by
+    intro items
+    have h1 := presM_loopIterate I c.P ⟨line, true⟩ tr var mods.cols (renderBlockBody c body) hI hbody items s h0
+    have h2 := loopIterate_done c.P ⟨line, true⟩ tr var mods.cols (renderBlockBody c body) items s
+    refine (h1.and h2).mono (fun r hr => ?_)
+    obtain ⟨st, s'⟩ := r
+    simp only at hr
+    obtain ⟨hi, rfl⟩ := hr
+    exact hQ _ hi
+  match clauses, hcl, hels with
+  | [], _, _ =>
+    rw [renderNode]
+    refine loopRun_post _ _ _ _ _ _ _ _ _ s Q (fun items => ?_)
+    rw [no_else_clause_scope]
+    exact hiter items
+  | [els], _, hels =>
+    rw [renderNode]
+    refine loopRun_post _ _ _ _ _ _ _ _ _ s Q (fun items => ?_)
+    cases items with
+    | nil => exact hels els (by simp)
+    | cons x xs => exact hiter (x :: xs)
+  | _ :: _ :: _, h, _ => simp at h
+
+/-- **C12 (for / tablerow, at least one item).** When the head of the loop evaluates (collection `v`
+    with items `items0`, `offset`/`limit` → `off`/`lim`) and selects at least one item: if the body
+    turns `I` (true of the variables before the loop) into `J` and keeps `J`, then `J` holds after the
+    loop — what an iteration assigns is still there when the loop is over (only the loop variable
+    and `forloop`, which `I` and `J` may not mention, are restored). -/
+theorem loop_scope_visited (c : RCtx) (line : Nat) (tr : Bool) (var : Bytes) (e : Expr) (mods : LoopMods)
+    (body : List Node) (clauses : List (List Node)) (s : RS) (v : GoVal) (items0 : List GoVal) (off lim : Option Int)
+    (x : GoVal) (xs : List GoVal) (I J : Env → Prop) (Q : SK → Env → Prop)
+    (hcl : clauses.length ≤ 1)
+    (hv : evaluate c.P s.env e = .ok v) (hitems : loopItems v = .ok items0)
+    (hoff : intModifier c.P mods.offset ⟨line, true⟩ s = .ret (off, s))
+    (hlim : intModifier c.P mods.limit ⟨line, true⟩ s = .ret (lim, s))
+    (hsel : selectItems mods.reversed off lim items0 = x :: xs)
+    (hI : ∀ env y w, (y = var ∨ y = nmForloop) → (I (env.set y w) ↔ I env))
+    (hJ : ∀ env y w, (y = var ∨ y = nmForloop) → (J (env.set y w) ↔ J env))
+    (h0 : I s.env)
+    (hfirst : ∀ s1, I s1.env → AllRet (fun r : Status × RS => J r.2.env) (renderBlockBody c body s1))
+    (hnext : ∀ s1, J s1.env → AllRet (fun r : Status × RS => J r.2.env) (renderBlockBody c body s1))
+    (hQ : ∀ env, J env → Q .done env) :
+    AllRet (EnvQ Q) (renderNode c (.loop line tr var e mods body clauses) s) := by
+  have hiter : AllRet (EnvQ Q)
+      (loopIterate c.P ⟨line, true⟩ tr var mods.cols (renderBlockBody c body) (x :: xs) s) := by
+    have h1 := tri_loopIterate_cons I J c.P ⟨line, true⟩ tr var mods.cols (renderBlockBody c body) hI hJ hfirst hnext
+      x xs s h0
+    have h2 := loopIterate_done c.P ⟨line, true⟩ tr var mods.cols (renderBlockBody c body) (x :: xs) s
+    refine (h1.and h2).mono (fun r hr => ?_)
+    obtain ⟨st, s'⟩ := r
+    simp only at hr
+    obtain ⟨hj, rfl⟩ := hr
+    exact hQ _ hj
+  have hdisp : ∀ elseM, loopDispatch c.P ⟨line, true⟩ tr var mods.cols (renderBlockBody c body) elseM (x :: xs) =
+      loopIterate c.P ⟨line, true⟩ tr var mods.cols (renderBlockBody c body) (x :: xs) := by
+    intro elseM; unfold loopDispatch; rfl
+  match clauses, hcl with
+  | [], _ =>
+    rw [renderNode, loopRun_eq c.P c.cfg.path ⟨line, true⟩ tr var e mods _ none s v items0 off lim hv hitems hoff hlim,
+      hsel, hdisp]
+    exact AllRet.wrapAt hiter
+  | [els], _ =>
+    rw [renderNode, loopRun_eq c.P c.cfg.path ⟨line, true⟩ tr var e mods _ (some _) s v items0 off lim hv hitems hoff hlim,
+      hsel, hdisp]
+    exact AllRet.wrapAt hiter
+  | _ :: _ :: _, h => simp at h
+
+/-- **C12 (assign_scope_global).** In a block body `PRE {% assign x = v %} POST` where `POST` — any
+    nodes, blocks nested to any depth — does not write `x` (`writesList`): whenever the body ends
+    normally, `x` holds `v` *after the block*, in every state and for every `PRE`. The binding made
+    inside the block is not undone when the block (or any block nested in `POST`) ends: the
+    variable map is one flat map. (`v` is a literal so that its value does not depend on the state
+    `PRE` leaves; for an expression, `assign_seq` gives the value.) Enclosing blocks pass the
+    condition on: `if_scope`, `case_scope`, `loop_scope`/`loop_scope_visited`, `block_end_scope` —
+    see `assign_scope_nested` for three levels. -/
+theorem assign_scope_global (c : RCtx) (x : Bytes) (v : GoVal) (line : Nat) (pre post : List Node) (s : RS)
+    (hx : x ∉ writesList post) :
+    AllRet (EnvQ (fun k env => k = .done → env.get x = v.unwrap))
+      (renderBlockBody c (pre ++ .assign line x (.lit v) :: post) s) := by
+  refine block_end_scope c _ s _ (seq_scope_append c pre _ s _ ?_)
+  have htail : ∀ s1, AllRet (EnvQ (fun k env => k = SK.done → env.get x = v.unwrap))
+      (renderList c (.assign line x (.lit v) :: post) s1) := by
+    intro s1
+    rw [assign_seq c line x (.lit v) post s1 v.unwrap rfl]
+    refine (keeps_renderList c x post hx _).mono (fun r hr _ => ?_)
+    rw [hr]
+    exact Env.get_set_same _ _ _
+  refine (AllRet.trivial _).mono (fun r _ => ?_)
+  obtain ⟨st, s1⟩ := r
+  cases st with
+  | done => exact htail s1
+  | brk e => intro h; cases h
+  | cont e => intro h; cases h
+
+/-- a block consisting of one literal assignment always ends with the variable bound -/
+theorem assign_block_sets (c : RCtx) (x : Bytes) (v : GoVal) (line : Nat) (s : RS) :
+    AllRet (EnvQ (fun _ env => env.get x = v.unwrap)) (renderBlockBody c [.assign line x (.lit v)] s) := by
+  refine block_end_scope c _ s _ ?_
+  rw [assign_seq c line x (.lit v) [] s v.unwrap rfl, renderList]
+  exact .ret _ (Env.get_set_same _ _ _)
+
+/-- **C12 (three levels).** `{% if true %}{% for i in ARRAY-OF-TWO %}{% if … %}{% else %}{% assign x = v %}…`
+    — an assignment three blocks deep: after the outermost block `x` holds `v`, in every state, for
+    every context and every writer behaviour. Obtained by composing the rules above. -/
+theorem assign_scope_nested (c : RCtx) (s : RS) (v a b : GoVal) :
+    AllRet (EnvQ (fun _ env => env.get [120] = v.unwrap))
+      (renderBlockBody c
+        [.ifB 1 [(.expr 1 (.lit (.bool true)),
+          [.loop 2 false [105] (.lit (.slice .any [a, b])) {}
+            [.ifB 3 [(.always, [.assign 4 [120] (.lit v)])]] []])]] s) := by
+  -- a single node followed by nothing
+  have single : ∀ (n : Node) (s0 : RS), AllRet (EnvQ (fun _ env => env.get [120] = v.unwrap)) (renderNode c n s0) →
+      AllRet (EnvQ (fun _ env => env.get [120] = v.unwrap)) (renderBlockBody c [n] s0) := by
+    intro n s0 h
+    refine block_end_scope c _ s0 _ (seq_scope c n [] s0 _ (h.mono (fun r hr => ?_)))
+    obtain ⟨st, s1⟩ := r
+    cases st with
+    | done => rw [renderList]; exact .ret _ hr
+    | brk e => exact hr
+    | cont e => exact hr
+  -- innermost: `{% if … %}{% else %}{% assign x = v %}{% endif %}`
+  have hinner : ∀ s1, AllRet (fun r : Status × RS => r.2.env.get [120] = v.unwrap)
+      (renderBlockBody c [.ifB 3 [(.always, [.assign 4 [120] (.lit v)])]] s1) := by
+    intro s1
+    refine single _ s1 (if_scope c 3 _ s1 _ ?_ ?_)
+    · intro h
+      have := h (.always, [.assign 4 [120] (.lit v)]) (by simp)
+      simp [condRes] at this
+    · intro b hb _
+      simp only [List.mem_singleton] at hb
+      subst hb
+      exact assign_block_sets c [120] v 4 s1
+  -- the loop visits two items
+  have hJ : ∀ (env : Env) (y : Bytes) (w : GoVal), (y = [105] ∨ y = nmForloop) →
+      ((env.set y w).get [120] = v.unwrap ↔ env.get [120] = v.unwrap) := by
+    intro env y w hy
+    have hne : ([120] : Bytes) ≠ y := by rcases hy with rfl | rfl <;> decide
+    rw [Env.get_set_other _ _ _ _ hne]
+  refine single _ s (if_scope c 1 _ s _ ?_ ?_)
+  · intro h
+    have := h (.expr 1 (.lit (.bool true)), [.loop 2 false [105] (.lit (.slice .any [a, b])) {}
+            [.ifB 3 [(.always, [.assign 4 [120] (.lit v)])]] []]) (List.mem_singleton.mpr rfl)
+    simp [condRes, evaluate, eval, GoVal.unwrap, GoVal.test] at this
+  · intro br hbr _
+    simp only [List.mem_singleton] at hbr
+    subst hbr
+    refine single _ s (loop_scope_visited c 2 false [105] _ {} _ [] s (.slice .any [a, b]) [a, b] none none a [b]
+      (fun _ => True) (fun env => env.get [120] = v.unwrap) _ (by decide) rfl rfl rfl rfl rfl
+      (fun _ _ _ _ => Iff.rfl) hJ trivial (fun s1 _ => hinner s1) (fun s1 _ => hinner s1) (fun _ h => h))
